@@ -180,7 +180,12 @@ func findMultiListeners(c *Ctx, rule string) []*multiModel {
 			if len(r.Results) == 0 || r.Block().Comment == "recover" {
 				continue
 			}
-			for _, o := range c.P.Origins(r.Results[0], eng.Plain) {
+			rv0 := r.Results[0]
+			if sv := c.P.ReachingStore(rv0, r); sv != nil {
+				rv0 = sv
+			}
+			// (the handle may be built by a helper of Acquire: newHandleLocked())
+			for _, o := range c.P.Origins(rv0, eng.OriginOpts{ThroughConvert: true, Interproc: true}) {
 				al, ok := o.(*ssa.Alloc)
 				if !ok {
 					continue
